@@ -679,3 +679,477 @@ Example fc03_refuted :
   find_keys Utf8 BYTES [27] = Ok ([([27], [27])], []) /\
   find_keys Utf8 CURTSIES [195; 169] = Ok ([([233], [195; 169])], []).
 Proof. vm_compute. repeat split. Qed.
+
+(* ======================================================================= *)
+(* C03 item 4: every table sequence is decoded under its table name          *)
+
+Definition shape_is (sh : shape) (enc : encoding) (full : bool) (lc ls : option str) (ip : bool) (s : list N) : bool :=
+  shape_eqb (shape_of (get_key_with lc ls ip enc BYTES full s)) sh.
+
+(* for the table sequence k, in every encoding:
+   - every proper prefix yields More while more is buffered (never a key, never an error);
+   - k itself: if it can grow into a longer table sequence, More while more is
+     buffered and a key when the read ends; otherwise a key at once (under utf-8
+     the single bytes >= 0x80 only when the read ends);
+   and each of these queries satisfies the property relation [prop_ok] *)
+Definition entry_ok (k : list N) : bool :=
+  forallb (fun i =>
+    let s := firstn i k in
+    query_ok s && negb (fc03_point s) &&
+    shape_is SMore Utf8 false (lookup curtsies_names s) (lookup curses_names s) (in_prefixes s) s &&
+    shape_is SMore Ascii false (lookup curtsies_names s) (lookup curses_names s) (in_prefixes s) s &&
+    shape_is SMore Latin1 false (lookup curtsies_names s) (lookup curses_names s) (in_prefixes s) s)
+    (seq 1 (length k - 1)) &&
+  query_ok k && negb (fc03_point k) &&
+  let lc := lookup curtsies_names k in
+  let ls := lookup curses_names k in
+  let ip := in_prefixes k in
+  let g := growable k in
+  forallb (fun enc =>
+    shape_is SKey enc true lc ls ip k &&
+    (if g then shape_is SMore enc false lc ls ip k
+     else meta_collision enc k || shape_is SKey enc false lc ls ip k)) encs.
+
+Theorem table_entries_checked : forallb entry_ok table_keys = true.
+Proof. vm_cast_no_check (eq_refl true). Qed.
+
+Lemma shape_is_spec : forall sh enc full s,
+  shape_is sh enc full (lookup curtsies_names s) (lookup curses_names s) (in_prefixes s) s = true ->
+  forall mode, shape_of (get_key enc mode full s) = sh.
+Proof. intros sh enc full s H mode. rewrite shape_bytes. apply shape_eqb_eq in H. exact H. Qed.
+
+Lemma key_shape_named : forall enc mode full s,
+  shape_of (get_key enc mode full s) = SKey ->
+  exists n, get_key enc mode full s = Key n /\ name_ok enc mode s n = true.
+Proof.
+  intros enc mode full s H. apply shape_key in H. destruct H as [n H]. exists n. split; [assumption|].
+  now apply get_key_named in H.
+Qed.
+
+(* the explicit reading of [entry_ok], for every sequence of either table,
+   every encoding and every naming mode *)
+Theorem table_entry_decoding : forall k enc mode, In k table_keys ->
+  (forall i, (1 <= i < length k)%nat -> get_key enc mode false (firstn i k) = More) /\
+  (exists n, get_key enc mode true k = Key n /\ name_ok enc mode k n = true) /\
+  (growable k = true -> get_key enc mode false k = More) /\
+  (growable k = false -> meta_collision enc k = false ->
+     exists n, get_key enc mode false k = Key n /\ name_ok enc mode k n = true).
+Proof.
+  intros k enc mode Hk. pose proof table_entries_checked as T. rewrite forallb_forall in T.
+  specialize (T k Hk). unfold entry_ok in T.
+  apply andb_true_iff in T. destruct T as [T T4]. apply andb_true_iff in T. destruct T as [T _].
+  apply andb_true_iff in T. destruct T as [T1 _].
+  rewrite forallb_forall in T1, T4. specialize (T4 enc (In_encs enc)).
+  apply andb_true_iff in T4. destruct T4 as [Tfull Tnot].
+  split; [|split; [|split]].
+  - intros i Hi. assert (Hin : In i (seq 1 (length k - 1))) by (apply in_seq; lia).
+    specialize (T1 i Hin). cbv zeta in T1.
+    apply andb_true_iff in T1. destruct T1 as [T1 C]. apply andb_true_iff in T1. destruct T1 as [T1 B].
+    apply andb_true_iff in T1. destruct T1 as [_ A].
+    apply shape_more. destruct enc; eapply shape_is_spec; eassumption.
+  - apply key_shape_named. eapply shape_is_spec; eassumption.
+  - intro G. rewrite G in Tnot. apply shape_more. eapply shape_is_spec; eassumption.
+  - intros G M. rewrite G, M in Tnot. cbn [orb] in Tnot. apply key_shape_named. eapply shape_is_spec; eassumption.
+Qed.
+
+(* ... and every such query satisfies the property relation *)
+Theorem table_entry_property : forall k enc mode full i, In k table_keys -> (1 <= i <= length k)%nat ->
+  prop_ok enc mode full (firstn i k) (get_key enc mode full (firstn i k)) = true.
+Proof.
+  intros k enc mode full i Hk Hi. pose proof table_entries_checked as T. rewrite forallb_forall in T.
+  specialize (T k Hk). unfold entry_ok in T.
+  apply andb_true_iff in T. destruct T as [T _]. apply andb_true_iff in T. destruct T as [T F2].
+  apply andb_true_iff in T. destruct T as [T1 Q2].
+  assert (Q : query_ok (firstn i k) = true /\ fc03_point (firstn i k) = false).
+  { destruct (Nat.eq_dec i (length k)) as [->|Hne].
+    - rewrite firstn_all. split; [assumption|]. now destruct (fc03_point k).
+    - rewrite forallb_forall in T1. assert (Hin : In i (seq 1 (length k - 1))) by (apply in_seq; lia).
+      specialize (T1 i Hin). cbv zeta in T1.
+      apply andb_true_iff in T1. destruct T1 as [T1 _]. apply andb_true_iff in T1. destruct T1 as [T1 _].
+      apply andb_true_iff in T1. destruct T1 as [T1 _]. apply andb_true_iff in T1. destruct T1 as [A B].
+      split; [assumption|]. now destruct (fc03_point (firstn i k)). }
+  destruct Q as [Q P]. destruct (query_ok_spec _ Q enc mode full) as [H|H]; [|assumption].
+  unfold fc03_family in H. rewrite P, andb_false_r in H. discriminate.
+Qed.
+
+(* the name reported for a table sequence in the mode of that table IS the table's name *)
+Lemma name_ok_table : forall enc k n v,
+  (lookup curtsies_names k = Some v -> name_ok enc CURTSIES k n = true -> n = v) /\
+  (lookup curses_names k = Some v -> name_ok enc CURSES k n = true -> n = v).
+Proof.
+  intros enc k n v. unfold name_ok. rewrite !assoc_lookup. split; intros L H; rewrite L in H; now apply str_eqb_eq in H.
+Qed.
+
+Example table_entries_nonvacuous :
+  mem [27; 91; 49; 59; 49; 48; 65] table_keys = true /\ growable [27; 91] = true /\ mem [27; 91] table_keys = true /\
+  get_key Utf8 CURSES true [27; 91; 65] = Key [75; 69; 89; 95; 85; 80].
+Proof. vm_compute. repeat split. Qed.
+
+(* ======================================================================= *)
+(* C03 item 5: every character is reported as itself                         *)
+
+Lemma high_not_prefix : forall s, has_high s = true -> in_prefixes s = false.
+Proof.
+  intros s H. destruct (in_prefixes s) eqn:P; [|reflexivity]. apply in_prefixes_In in P.
+  pose proof table_prefixes_ascii as A. rewrite forallb_forall in A. specialize (A s P).
+  rewrite has_high_not_ascii, A in H. discriminate.
+Qed.
+
+Lemma high_long_not_table : forall s, has_high s = true -> (2 <= length s)%nat ->
+  lookup curtsies_names s = None /\ lookup curses_names s = None.
+Proof.
+  intros s H L. pose proof table_high_keys_single as F. rewrite forallb_app in F.
+  apply andb_true_iff in F. destruct F as [F1 F2]. split.
+  - destruct (lookup curtsies_names s) eqn:E; [|reflexivity].
+    destruct (high_key_lookup _ _ _ F1 E H) as [b ->]. cbn in L. lia.
+  - destruct (lookup curses_names s) eqn:E; [|reflexivity].
+    destruct (high_key_lookup _ _ _ F2 E H) as [b ->]. cbn in L. lia.
+Qed.
+
+Lemma max_keypress_ge_4 : (4 <= max_keypress_size)%nat.
+Proof. vm_compute. lia. Qed.
+
+(* a complete multi-byte character that is decodable: a key at once, named by its decoding *)
+Lemma multibyte_char_key : forall enc mode full s u,
+  has_high s = true -> (2 <= length s <= 4)%nat -> decode enc s = Some u ->
+  get_key enc mode full s = Key (match mode with BYTES => s | _ => u end).
+Proof.
+  intros enc mode full s u H L D. destruct (high_long_not_table s H) as [Lc Ls]; [lia|].
+  unfold get_key, get_key_with. rewrite Lc, Ls, (high_not_prefix s H).
+  pose proof max_keypress_ge_4 as M.
+  replace (max_keypress_size <? length s)%nat with false by lia.
+  unfold could_be_unfinished_char, decodable. rewrite D. cbn [is_some orb andb].
+  unfold key_name_with. rewrite D. destruct full, mode; reflexivity.
+Qed.
+
+(* an undecodable beginning whose first byte announces (by the masks) more
+   bytes than are there: More while more is buffered *)
+Lemma lead_wait_more : forall mode s,
+  has_high s = true -> (length s <= 4)%nat -> decode Utf8 s = None -> utf8_lead_wait s = true ->
+  get_key Utf8 mode false s = More.
+Proof.
+  intros mode s H L D W. apply get_key_more_iff. pose proof max_keypress_ge_4 as M.
+  split; [lia|]. split; [reflexivity|]. right. unfold waiting, decodable. rewrite D, W. reflexivity.
+Qed.
+
+(* the five masks of could_be_unfinished_utf8, as byte ranges *)
+Lemma lead_masks_checked :
+  forallb (fun b => Bool.eqb (N.land b 224 =? 192) (in_range 192 223 b) &&
+                    Bool.eqb (N.land b 240 =? 224) (in_range 224 239 b) &&
+                    Bool.eqb (N.land b 248 =? 240) (in_range 240 247 b) &&
+                    Bool.eqb (N.land b 252 =? 248) (in_range 248 251 b) &&
+                    Bool.eqb (N.land b 254 =? 252) (in_range 252 253 b)) all_bytes = true.
+Proof. vm_compute. reflexivity. Qed.
+
+Lemma lead_masks : forall b, b < 256 ->
+  (N.land b 224 =? 192) = in_range 192 223 b /\ (N.land b 240 =? 224) = in_range 224 239 b /\
+  (N.land b 248 =? 240) = in_range 240 247 b.
+Proof.
+  intros b Hb. pose proof (byte_cases _ lead_masks_checked b Hb) as H. cbv beta in H.
+  repeat (apply andb_true_iff in H; destruct H as [H ?]).
+  repeat split; now apply eqb_prop.
+Qed.
+
+Ltac split_ifs :=
+  repeat match goal with
+         | |- context [if ?c then _ else _] =>
+             let E := fresh "E" in destruct c eqn:E; try (exfalso; lia)
+         end.
+
+Ltac crunch := repeat (progress (cbn [urun ustep]; unfold in_range; split_ifs)).
+
+Lemma wf2_decode : forall b0 b1, wf2 b0 b1 = true ->
+  urun UGround [b0; b1] = Some [cp2 b0 b1] /\ urun UGround [b0] = None.
+Proof.
+  intros b0 b1 W. unfold wf2, is_cont, in_range in W. unfold cp2.
+  split; crunch; try reflexivity; f_equal; f_equal; lia.
+Qed.
+
+Lemma wf3_decode : forall b0 b1 b2, wf3 b0 b1 b2 = true ->
+  urun UGround [b0; b1; b2] = Some [cp3 b0 b1 b2] /\ urun UGround [b0] = None /\ urun UGround [b0; b1] = None.
+Proof.
+  intros b0 b1 b2 W. unfold wf3, is_cont, in_range in W. unfold cp3.
+  repeat split; crunch; try reflexivity; f_equal; f_equal; lia.
+Qed.
+
+Lemma wf4_decode : forall b0 b1 b2 b3, wf4 b0 b1 b2 b3 = true ->
+  urun UGround [b0; b1; b2; b3] = Some [cp4 b0 b1 b2 b3] /\ urun UGround [b0] = None /\
+  urun UGround [b0; b1] = None /\ urun UGround [b0; b1; b2] = None.
+Proof.
+  intros b0 b1 b2 b3 W. unfold wf4, is_cont, in_range in W. unfold cp4.
+  repeat split; crunch; try reflexivity; f_equal; f_equal; lia.
+Qed.
+
+Lemma has_high_cons : forall b s, 128 <= b -> has_high (b :: s) = true.
+Proof. intros b s H. cbn [has_high existsb]. replace (128 <=? b) with true by lia. reflexivity. Qed.
+
+Lemma lead_wait_len : forall b s n,
+  b < 256 -> (in_range 192 223 b = true /\ n = 2%nat) \/ (in_range 224 239 b = true /\ n = 3%nat) \/
+             (in_range 240 247 b = true /\ n = 4%nat) ->
+  (length (b :: s) < n)%nat -> utf8_lead_wait (b :: s) = true.
+Proof.
+  intros b s n Hb H L. unfold utf8_lead_wait, could_be_unfinished_utf8.
+  destruct (lead_masks b Hb) as [M1 [M2 M3]]. rewrite M1, M2, M3.
+  destruct H as [[R ->]|[[R ->]|[R ->]]]; rewrite R.
+  - replace (length (b :: s) <? 2)%nat with true by lia. reflexivity.
+  - replace (length (b :: s) <? 3)%nat with true by lia. cbn [andb]. now rewrite orb_true_r.
+  - replace (length (b :: s) <? 4)%nat with true by lia. cbn [andb]. now rewrite !orb_true_r.
+Qed.
+
+(* two-byte characters, from the byte ranges alone *)
+Theorem utf8_char_2 : forall b0 b1 mode, wf2 b0 b1 = true ->
+  get_key Utf8 mode false [b0] = More /\
+  forall full, get_key Utf8 mode full [b0; b1] = Key (char_key mode [b0; b1] (cp2 b0 b1)).
+Proof.
+  intros b0 b1 mode W. destruct (wf2_decode b0 b1 W) as [D2 D1].
+  unfold wf2, is_cont, in_range in W.
+  assert (H0 : 128 <= b0) by lia. split.
+  - apply lead_wait_more; [now apply has_high_cons | cbn; lia | exact D1 |].
+    apply (lead_wait_len b0 [] 2); [lia | left; unfold in_range; split; lia | cbn; lia].
+  - intro full. rewrite (multibyte_char_key Utf8 mode full _ [cp2 b0 b1]);
+      [now destruct mode | now apply has_high_cons | cbn; lia | exact D2].
+Qed.
+
+Theorem utf8_char_3 : forall b0 b1 b2 mode, wf3 b0 b1 b2 = true ->
+  get_key Utf8 mode false [b0] = More /\ get_key Utf8 mode false [b0; b1] = More /\
+  forall full, get_key Utf8 mode full [b0; b1; b2] = Key (char_key mode [b0; b1; b2] (cp3 b0 b1 b2)).
+Proof.
+  intros b0 b1 b2 mode W. destruct (wf3_decode b0 b1 b2 W) as [D3 [D1 D2]].
+  unfold wf3, is_cont, in_range in W.
+  assert (H0 : 224 <= b0 <= 239) by lia. split; [|split].
+  - apply lead_wait_more; [apply has_high_cons; lia | cbn; lia | exact D1 |].
+    apply (lead_wait_len b0 [] 3); [lia | right; left; unfold in_range; split; lia | cbn; lia].
+  - apply lead_wait_more; [apply has_high_cons; lia | cbn; lia | exact D2 |].
+    apply (lead_wait_len b0 [b1] 3); [lia | right; left; unfold in_range; split; lia | cbn; lia].
+  - intro full. rewrite (multibyte_char_key Utf8 mode full _ [cp3 b0 b1 b2]);
+      [now destruct mode | apply has_high_cons; lia | cbn; lia | exact D3].
+Qed.
+
+Theorem utf8_char_4 : forall b0 b1 b2 b3 mode, wf4 b0 b1 b2 b3 = true ->
+  get_key Utf8 mode false [b0] = More /\ get_key Utf8 mode false [b0; b1] = More /\
+  get_key Utf8 mode false [b0; b1; b2] = More /\
+  forall full, get_key Utf8 mode full [b0; b1; b2; b3] = Key (char_key mode [b0; b1; b2; b3] (cp4 b0 b1 b2 b3)).
+Proof.
+  intros b0 b1 b2 b3 mode W. destruct (wf4_decode b0 b1 b2 b3 W) as [D4 [D1 [D2 D3]]].
+  unfold wf4, is_cont, in_range in W.
+  assert (H0 : 240 <= b0 <= 244) by lia. split; [|split; [|split]].
+  - apply lead_wait_more; [apply has_high_cons; lia | cbn; lia | exact D1 |].
+    apply (lead_wait_len b0 [] 4); [lia | right; right; unfold in_range; split; lia | cbn; lia].
+  - apply lead_wait_more; [apply has_high_cons; lia | cbn; lia | exact D2 |].
+    apply (lead_wait_len b0 [b1] 4); [lia | right; right; unfold in_range; split; lia | cbn; lia].
+  - apply lead_wait_more; [apply has_high_cons; lia | cbn; lia | exact D3 |].
+    apply (lead_wait_len b0 [b1; b2] 4); [lia | right; right; unfold in_range; split; lia | cbn; lia].
+  - intro full. rewrite (multibyte_char_key Utf8 mode full _ [cp4 b0 b1 b2 b3]);
+      [now destruct mode | apply has_high_cons; lia | cbn; lia | exact D4].
+Qed.
+
+(* the encoder produces exactly those byte patterns, and they decode back *)
+Lemma encode_wf : forall c, is_scalar c = true -> 128 <= c ->
+  match utf8_encode c with
+  | [b0; b1] => wf2 b0 b1 = true /\ cp2 b0 b1 = c
+  | [b0; b1; b2] => wf3 b0 b1 b2 = true /\ cp3 b0 b1 b2 = c
+  | [b0; b1; b2; b3] => wf4 b0 b1 b2 b3 = true /\ cp4 b0 b1 b2 b3 = c
+  | _ => False
+  end.
+Proof.
+  intros c S L. unfold is_scalar in S. unfold utf8_encode.
+  replace (c <? 128) with false by lia.
+  destruct (c <? 2048) eqn:E1; [|destruct (c <? 65536) eqn:E2].
+  - pose proof (N.div_mod c 64). pose proof (N.mod_lt c 64).
+    assert (c / 64 < 32) by (apply N.div_lt_upper_bound; lia).
+    assert (2 <= c / 64) by (apply N.div_le_lower_bound; lia).
+    unfold wf2, cp2, is_cont, in_range. split; lia.
+  - pose proof (N.div_mod c 64). pose proof (N.mod_lt c 64).
+    pose proof (N.div_mod (c / 64) 64). pose proof (N.mod_lt (c / 64) 64).
+    assert (Q : c / 4096 = c / 64 / 64) by (rewrite N.div_div; [reflexivity|lia|lia]).
+    assert (c / 4096 < 16) by (apply N.div_lt_upper_bound; lia).
+    unfold wf3, cp3, is_cont, in_range. rewrite Q in *.
+    set (q := c / 64 / 64) in *. set (r1 := (c / 64) mod 64) in *. set (r2 := c mod 64) in *.
+    set (d := c / 64) in *.
+    split; [|lia].
+    assert (C : q = 0 \/ (1 <= q <= 12) \/ q = 13 \/ (14 <= q <= 15)) by lia.
+    destruct C as [C|[C|[C|C]]].
+    + subst q. rewrite C in *. lia.
+    + lia.
+    + rewrite C in *. lia.
+    + lia.
+  - pose proof (N.div_mod c 64). pose proof (N.mod_lt c 64).
+    pose proof (N.div_mod (c / 64) 64). pose proof (N.mod_lt (c / 64) 64).
+    pose proof (N.div_mod (c / 64 / 64) 64). pose proof (N.mod_lt (c / 64 / 64) 64).
+    assert (Q1 : c / 4096 = c / 64 / 64) by (rewrite N.div_div; [reflexivity|lia|lia]).
+    assert (Q2 : c / 262144 = c / 64 / 64 / 64) by (rewrite !N.div_div; [reflexivity|lia..]).
+    assert (c / 262144 < 5) by (apply N.div_lt_upper_bound; lia).
+    unfold wf4, cp4, is_cont, in_range. rewrite Q1, Q2 in *.
+    set (d1 := c / 64) in *. set (d2 := d1 / 64) in *. set (q := d2 / 64) in *.
+    set (r1 := d2 mod 64) in *. set (r2 := d1 mod 64) in *. set (r3 := c mod 64) in *.
+    split; [|lia].
+    assert (C : q = 0 \/ (1 <= q <= 3) \/ q = 4) by lia.
+    destruct C as [C|[C|C]].
+    + rewrite C in *. lia.
+    + lia.
+    + rewrite C in *. lia.
+Qed.
+
+Lemma not_table_lookup : forall s, is_table_seq s = false ->
+  lookup curtsies_names s = None /\ lookup curses_names s = None.
+Proof.
+  intros s H. unfold is_table_seq, mem, table_keys in H. rewrite existsb_app in H.
+  apply orb_false_iff in H. destruct H as [H1 H2].
+  assert (G : forall t, existsb (bytes_eqb s) (map fst t) = false -> lookup t s = None).
+  { intros t E. destruct (lookup t s) eqn:L; [|reflexivity]. apply lookup_In in L.
+    assert (X : existsb (bytes_eqb s) (map fst t) = true).
+    { apply existsb_exists. exists s. split; [|apply bytes_eqb_refl].
+      apply in_map_iff. exists (s, s0). split; [reflexivity|assumption]. }
+    congruence. }
+  split; now apply G.
+Qed.
+
+Lemma single_prefixes_in_table :
+  forallb (fun p => (1 <? length p)%nat || is_table_seq p) keymap_prefixes = true.
+Proof. vm_compute. reflexivity. Qed.
+
+Lemma max_keypress_ge_1 : (1 <= max_keypress_size)%nat.
+Proof. pose proof max_keypress_ge_4. lia. Qed.
+
+(* a single byte that is a character and not a table sequence *)
+Lemma single_char_key : forall enc mode full b c,
+  decode enc [b] = Some [c] -> is_table_seq [b] = false ->
+  get_key enc mode full [b] = Key (char_key mode [b] c).
+Proof.
+  intros enc mode full b c D T. destruct (not_table_lookup _ T) as [Lc Ls].
+  assert (P : in_prefixes [b] = false).
+  { destruct (in_prefixes [b]) eqn:P; [|reflexivity]. apply in_prefixes_In in P.
+    pose proof single_prefixes_in_table as F. rewrite forallb_forall in F. specialize (F _ P).
+    cbn [length] in F. rewrite T in F. discriminate. }
+  unfold get_key, get_key_with. rewrite Lc, Ls, P. pose proof max_keypress_ge_1.
+  replace (max_keypress_size <? length [b])%nat with false by (cbn [length]; lia).
+  unfold could_be_unfinished_char, decodable. rewrite D. cbn [is_some orb andb].
+  unfold key_name_with. rewrite D. destruct full, mode; reflexivity.
+Qed.
+
+(* C03 item 5.  For every encoding, every character c that has an encoding bs
+   there (utf-8: every Unicode scalar value) and is not itself a table sequence:
+   every proper prefix of bs yields More while more is buffered, and bs yields
+   the character itself -- at once, whether or not more is buffered. *)
+Theorem chars_as_themselves : forall enc mode c bs,
+  encode_char enc c = Some bs -> is_table_seq bs = false ->
+  (forall i, (1 <= i < length bs)%nat -> get_key enc mode false (firstn i bs) = More) /\
+  (forall full, get_key enc mode full bs = Key (char_key mode bs c)).
+Proof.
+  intros enc mode c bs E T.
+  assert (Single : forall b, decode enc [b] = Some [c] -> is_table_seq [b] = false ->
+     (forall i, (1 <= i < length [b])%nat -> get_key enc mode false (firstn i [b]) = More) /\
+     (forall full, get_key enc mode full [b] = Key (char_key mode [b] c))).
+  { intros b D Tb. split; [cbn [length]; intros; lia|]. intro full. now apply single_char_key. }
+  destruct enc; cbn [encode_char] in E.
+  - (* utf-8 *)
+    destruct (is_scalar c) eqn:S; [|discriminate]. inversion E as [E']; clear E. subst bs.
+    destruct (c <? 128) eqn:A.
+    + unfold utf8_encode in *. rewrite A in *. apply (Single c); [|assumption].
+      cbn [decode]. unfold decode_utf8. cbn [urun ustep]. now rewrite A.
+    + pose proof (encode_wf c S ltac:(lia)) as W.
+      destruct (utf8_encode c) as [|b0 [|b1 [|b2 [|b3 [|b4 r]]]]]; try contradiction; destruct W as [W <-].
+      * destruct (utf8_char_2 b0 b1 mode W) as [P1 K]. split; [|exact K].
+        intros i Hi. cbn [length] in Hi. assert (i = 1%nat) as -> by lia. exact P1.
+      * destruct (utf8_char_3 b0 b1 b2 mode W) as [P1 [P2 K]]. split; [|exact K].
+        intros i Hi. cbn [length] in Hi. assert (i = 1%nat \/ i = 2%nat) as [-> | ->] by lia; assumption.
+      * destruct (utf8_char_4 b0 b1 b2 b3 mode W) as [P1 [P2 [P3 K]]]. split; [|exact K].
+        intros i Hi. cbn [length] in Hi.
+        assert (i = 1%nat \/ i = 2%nat \/ i = 3%nat) as [-> | [-> | ->]] by lia; assumption.
+  - (* ascii *)
+    destruct (c <? 128) eqn:A; [|discriminate]. inversion E; subst. apply (Single c); [|assumption].
+    cbn [decode all_ascii forallb]. unfold is_ascii. now rewrite A.
+  - (* latin-1 *)
+    destruct (c <? 256) eqn:A; [|discriminate]. inversion E; subst. apply (Single c); [|assumption].
+    cbn [decode is_bytes forallb]. unfold is_byte. now rewrite A.
+Qed.
+
+Example chars_as_themselves_nonvacuous :
+  encode_char Utf8 233 = Some [195; 169] /\ is_table_seq [195; 169] = false /\
+  encode_char Utf8 128512 = Some [240; 159; 152; 128] /\ is_table_seq [240; 159; 152; 128] = false /\
+  encode_char Utf8 8364 = Some [226; 130; 172] /\ encode_char Ascii 97 = Some [97] /\ is_table_seq [97] = false.
+Proof. vm_compute. repeat split. Qed.
+
+(* More is asked for only while the bytes can still grow: a lead byte that is
+   answered More on the tree really begins a well-formed character when it is in C2..F4 *)
+Definition lead_completion (b : N) : list N :=
+  if b <? 224 then [b; 128]
+  else if b =? 224 then [b; 160; 128]
+  else if b <? 240 then [b; 128; 128]
+  else if b =? 240 then [b; 144; 128; 128]
+  else [b; 128; 128; 128].
+Lemma lead_bytes_growable :
+  forallb (fun b => negb (in_range 194 244 b) || decodable Utf8 (lead_completion b)) all_bytes = true.
+Proof. vm_compute. reflexivity. Qed.
+
+(* ======================================================================= *)
+(* C20: tables and config-file names                                         *)
+
+(* every sequence that has a curses-style name also has a curtsies name *)
+Theorem curses_keys_have_curtsies_names :
+  forallb (fun k => in_table curtsies_names k) (map fst curses_names) = true.
+Proof. vm_compute. reflexivity. Qed.
+
+(* every valid configuration name maps to names carried by table sequences
+   (and table_entry_decoding shows those sequences are decoded to these names) *)
+Theorem config_names_reachable :
+  forallb (fun k => config_ok (keymap_get k)) valid_config_names = true.
+Proof. vm_compute. reflexivity. Qed.
+
+Theorem config_unbound : keymap_get [] = Ok [].
+Proof. reflexivity. Qed.
+
+(* a reachable name is the CURTSIES name of some table sequence, which the
+   decoder reports when the sequence arrives and the read ends *)
+Theorem reachable_produced : forall n, reachable n = true ->
+  exists k, In k table_keys /\ forall enc, get_key enc CURTSIES true k = Key n.
+Proof.
+  intros n R. unfold reachable in R. apply existsb_exists in R. destruct R as [[k v] [Hin E]].
+  cbn [snd] in E. apply str_eqb_eq in E. subst v.
+  assert (Hk : In k table_keys).
+  { unfold table_keys. apply in_or_app. left. apply in_map_iff. exists (k, n). auto. }
+  exists k. split; [assumption|]. intro enc.
+  destruct (table_entry_decoding k enc CURTSIES Hk) as [_ [[m [G Nm]] _]]. rewrite G. f_equal.
+  destruct (In_lookup _ _ _ Hin) as [w Lw].
+  pose proof (lookup_In _ _ _ Lw) as Hw.
+  (* keys are distinct, so the lookup finds this very entry *)
+  assert (w = n).
+  { pose proof (proj1 table_keys_distinct) as D. clear - Hin Hw D.
+    induction curtsies_names as [|[k' v'] t IH]; [contradiction|].
+    cbn [map fst keys_distinct] in D. apply andb_true_iff in D. destruct D as [D1 D2].
+    assert (NM : forall x, In (k', x) t -> False).
+    { intros x Hx. apply negb_true_iff in D1. unfold mem in D1.
+      assert (existsb (bytes_eqb k') (map fst t) = true).
+      { apply existsb_exists. exists k'. split; [|apply bytes_eqb_refl]. apply in_map_iff. exists (k', x). auto. }
+      congruence. }
+    destruct Hin as [Hin|Hin], Hw as [Hw|Hw].
+    - congruence.
+    - inversion Hin; subst. exfalso. eapply NM; eauto.
+    - inversion Hw; subst. exfalso. eapply NM; eauto.
+    - now apply IH. }
+  subst w. now apply (proj1 (name_ok_table enc k m n)).
+Qed.
+
+Example config_names_nonvacuous :
+  length valid_config_names = 136%nat /\
+  keymap_get [67; 45; 105] = Ok [[60; 84; 65; 66; 62]] /\          (* C-i -> <TAB> *)
+  keymap_get [70; 49; 50] = Ok [[60; 70; 49; 50; 62]] /\           (* F12 -> <F12> *)
+  keymap_get [120] = Raise KeyError.
+Proof. vm_compute. repeat split. Qed.
+
+(* ---- hypotheses of the main theorems are inhabited ----------------------- *)
+Example lossless_nonvacuous :
+  find_keys Utf8 BYTES [27; 91; 65; 195; 169; 97; 27] =
+    Ok ([([27; 91; 65], [27; 91; 65]); ([195; 169], [195; 169]); ([97], [97]); ([27], [27])], []) /\
+  find_keys Utf8 CURTSIES [27; 91; 65; 195; 169; 97; 27] =
+    Ok ([([60; 85; 80; 62], [27; 91; 65]); ([233], [195; 169]); ([97], [97]); ([60; 69; 83; 67; 62], [27])], []) /\
+  find_keys_n 1 Latin1 CURSES [27; 91; 65; 233] = Ok ([([75; 69; 89; 95; 85; 80], [27; 91; 65])], [233]).
+Proof. vm_compute. repeat split. Qed.
+
+Example raises_nonvacuous :
+  get_key Utf8 CURTSIES false [1; 2; 3; 4; 5; 6; 7; 8] = Err ValueError /\
+  get_key Ascii CURSES false [27; 200] = Err UnicodeDecodeError /\
+  get_key Utf8 BYTES false [195] = More /\ get_key Utf8 BYTES true [195] = Key [195] /\
+  get_key Utf8 CURSES true [195] = Key [120; 67; 51] /\
+  mem [27; 91; 49] tree_nodes = true.
+Proof. vm_compute. repeat split. Qed.
